@@ -104,10 +104,13 @@ def with_budget(seconds, fn, default):
         signal.signal(signal.SIGVTALRM, old)
 
 
-def eval_py(P, mode, gcases, text_route=False):
+def eval_py(P, mode, gcases, text_route=False, decoy=True):
     """Runs the real code; returns per grammar (wire grammar lines, [(s, i, query line, outcome)]).
     The model grammar is encoded from the AST, not from the library's objects.  With text_route every
-    other grammar is built by rendering it as ABNF text and loading it through the library's reader."""
+    other grammar is built by rendering it as ABNF text and loading it through the library's reader.
+    With decoy, a second grammar class with the SAME rule names but other definitions (the next generated grammar) is
+    built before anything is parsed, and every request is first made to the decoy's rule of the same name: state
+    keyed on rule names / sources instead of rule objects (shared memo tables) then shows up as a wrong answer."""
     res = []
     for gi, (gr, cases) in enumerate(gcases):
         built = None
@@ -123,11 +126,20 @@ def eval_py(P, mode, gcases, text_route=False):
             except Exception as e:  # noqa - the library refused/crashed while constructing a valid grammar
                 build_exc = "exc:" + type(e).__name__ + "-while-building-grammar"
         cls, rules = built if built is not None else (None, [None])
+        decoy_rule = None
+        if decoy and build_exc is None and len(gcases) > 1:
+            try:
+                _dcls, drules = G.build(P, gcases[(gi + 1) % len(gcases)][0])
+                decoy_rule = drules[0]
+            except Exception:  # noqa - a decoy that cannot be built is simply not used
+                decoy_rule = None
         glines = G.grammar_wire(gr)
         exp = []
         for s, i in cases:
             if build_exc is None:
                 n_out = len(case_lines(mode, s, i))
+                if decoy_rule is not None:
+                    with_budget(1.0, lambda: py_outcomes(P, mode, decoy_rule, s, i), None)
                 pys = with_budget(CASE_BUDGET_S, lambda: py_outcomes(P, mode, rules[0], s, i), ["slow:no-result-within-budget"] * n_out)
                 if pys[0].startswith("slow:"):
                     build_exc = "slow:skipped-after-slow-case"   # do not spend the budget again on this grammar
@@ -185,6 +197,8 @@ def run(ctx, P, mode, n_grammars, n_strings, seed, gen_kwargs=None, all_offsets=
                         "grammar_index": gi, "grammar": grammars[gi], "wire": blocks[gi][: 1 + int(blocks[gi][0].split()[1])],
                         "source": [ord(c) for c in s], "source_repr": repr(s), "offset": i, "query": line,
                         "implementation": py, "model": ln,
+                        # the grammar of the same rule names that was asked first (see eval_py); part of the failing history
+                        "decoy": grammars[(gi + 1) % len(grammars)] if len(grammars) > 1 else None,
                     })
     stats["distinct_nontrivial"] = len(nontrivial)
     stats["grammars"] = n_grammars
@@ -208,8 +222,23 @@ def sample_cases(grammars, expected, k=3):
 # replay of a single case on the real code (used by `./check replay`)
 
 
-def replay_case(P, grammar, s, i, mode):
+def build_with_decoy(P, grammar, decoy):
+    """the grammar and (if given) the decoy grammar of the same rule names, both built before anything is parsed"""
     cls, rules = G.build(P, [tuple(r) for r in grammar])
+    drule = None
+    if decoy:
+        try:
+            _c, drules = G.build(P, [tuple(r) for r in decoy])
+            drule = drules[0]
+        except Exception:  # noqa
+            drule = None
+    return rules, drule
+
+
+def replay_case(P, grammar, s, i, mode, decoy=None):
+    rules, drule = build_with_decoy(P, grammar, decoy)
+    if drule is not None:
+        with_budget(1.0, lambda: py_outcomes(P, mode, drule, s, i), None)
     return py_outcomes(P, mode, rules[0], s, i)
 
 
@@ -220,13 +249,17 @@ def shrink(P, mode, d, max_rounds=30):
     i = d["offset"]
     qkind = d["query"].split()[0]
 
+    decoy = d.get("decoy")
+
     def disagrees(gr, s, i):
         try:
-            cls, rules = G.build(P, gr)
+            rules, drule = build_with_decoy(P, gr, decoy)
         except Exception:
             return None
         lines = G.grammar_wire(gr)
         cl = case_lines(mode, s, i)
+        if drule is not None:
+            with_budget(1.0, lambda: py_outcomes(P, mode, drule, s, i), None)
         pys = py_outcomes(P, mode, rules[0], s, i)
         out = lib.run_driver(lines + cl)
         for line, py, ln in zip(cl, pys, out[1:]):
